@@ -2,6 +2,7 @@ INIT Init
 NEXT Next
 CONSTANTS
   IdAtomsMax = 2
+  OnlyFam = ""
   CpsMode = TRUE
 INVARIANT SpecReadsAsIntended
 INVARIANT Export
